@@ -508,6 +508,12 @@ class CommitHandler(processor.CommitHandler):
         result = {}
         if props is not None:
             for name, value in props.items():
+                # The parser hands out what it read from the stream: bytes.
+                # Revision properties are (unicode) strings.
+                if isinstance(name, bytes):
+                    name = name.decode("utf-8")
+                if isinstance(value, bytes):
+                    value = value.decode("utf-8", "replace")
                 if value is None:
                     self.warning(f"converting None to empty string for property {name}")
                     result[name] = ""
